@@ -31,14 +31,19 @@ fn run(args: vcore::Args) -> i32 {
     eprintln!("mvcc-chain: {} states {} transitions ({:.1}s)", rep.states - before.0, rep.transitions - before.1, rep.elapsed_s());
     // layer 2: sessions
     let all_probes: Vec<usize> = (0..sess::PROBES.len()).collect();
+    // edge-focused layer: parallel edges b->a created by statement and by the direct API (converging second hops of differing visibility)
+    let edge_probes: Vec<usize> = ["label-scan", "expand", "two-hop", "two-hop-any", "get_edge", "neighbors-out", "neighbors-in"].iter().filter_map(|n| sess::PROBES.iter().position(|p| p == n)).collect();
+    let edge_layer = |caps: Vec<usize>, depth: usize| (sess::Model { prop: "C01", sessions: 2, writes: vec![sess::W::CreateEdge, sess::W::CreateEdgeApi, sess::W::DeleteEdge], caps, writers: vec![0], levels: vec![0], probes: edge_probes.clone(), second_commit_first: false, endings: false }, depth);
     let configs: Vec<(sess::Model, usize)> = match tier {
         Tier::Quick => vec![
             (sess::Model { prop: "C01", sessions: 2, writes: sess::ALL_W.to_vec(), caps: vec![3, 2], writers: vec![0], levels: vec![0], probes: all_probes.clone(), second_commit_first: false, endings: false }, 4),
             (sess::Model { prop: "C01", sessions: 2, writes: vec![sess::W::CreateNode, sess::W::SetProp, sess::W::InsertTriple], caps: vec![3, 3], writers: vec![0, 1], levels: vec![0], probes: all_probes.clone(), second_commit_first: true, endings: false }, 5),
+            edge_layer(vec![5, 2], 6),
         ],
         Tier::Thorough => vec![
             (sess::Model { prop: "C01", sessions: 2, writes: sess::ALL_W.to_vec(), caps: vec![4, 3], writers: vec![0], levels: vec![0, 1], probes: all_probes.clone(), second_commit_first: false, endings: false }, 6),
             (sess::Model { prop: "C01", sessions: 3, writes: vec![sess::W::CreateNode, sess::W::SetProp, sess::W::DeleteNodeB, sess::W::CreateEdge, sess::W::AddLabel, sess::W::InsertTriple], caps: vec![3, 3, 2], writers: vec![0, 1], levels: vec![0], probes: all_probes.clone(), second_commit_first: true, endings: false }, 6),
+            edge_layer(vec![6, 3], 8),
         ],
     };
     for (m, depth) in configs {
